@@ -95,7 +95,7 @@ ITEMS = [
     ("tree-walk-drops-partials", {"C05": "C05.1"}, "nested directories lose their prefix", [("                self.walk_file_tree(val, partials + [key])", "                self.walk_file_tree(val, [key])")]),
     ("pieces-root-unguarded", {"C05": "C05.1"}, "pieces root read for empty files", [("                roothash = None if not length else val[\"\"][\"pieces root\"]", "                roothash = val[\"\"][\"pieces root\"]")]),
     ("layer-predicate-non-strict", {"C05": "C05.1"}, "length >= piece length looks up piece layers", [("            if self.length > self.piece_length:\n                self.pieces = self.piece_layers[self.root_hash]", "            if self.length >= self.piece_length:\n                self.pieces = self.piece_layers[self.root_hash]")]),
-    ("G28-regress-single-file-by-length-only", {"C05": "C05.1"}, "defect G28 (repaired): single file decided by info.length alone",
+    ("G22-regress-single-file-by-length-only", {"C05": "C05.1"}, "defect G22 (repaired): single file decided by info.length alone",
      [("            if leaf is not None and os.path.isfile(self.root):\n                length = leaf[\"length\"]\n", "            if leaf is not None and os.path.isfile(self.root):\n                length = None\n"),
       ("        length = self.info.get(\"length\")\n        if length is None and self.meta_version > 1:", "        length = self.info.get(\"length\")\n        if False:")], {"quick": True}),
     ("G29-regress-directory-taken-for-single-file", {"C05": "C05.1"}, "defect G29 (repaired): a directory named like the torrent is returned for a single-file torrent",
